@@ -31,6 +31,7 @@
 -/
 import EinoV.Model.C16
 import EinoV.Model.C16Keys
+import EinoV.Model.C16Resume
 
 namespace EinoV.C16
 
@@ -209,46 +210,53 @@ def extractS (F : Facts) (V : SliceFacts) (grow : Nat → Nat → Nat) (nodes : 
 def SOpt.shell (o : SOpt) : Opt := { ty := o.ty, vals := [], handlers := o.handlers, paths := o.paths }
 
 mutual
-/-- `runNodeW` on the heap: a component reads the cells of its slice when it runs; a nested graph
-    extracts – on the heap as the nodes before it left it – from the Options of its list. -/
-def runNodeSW (F : Facts) (K : KeyFacts) (V : SliceFacts) (grow : Nat → Nat → Nat) (par : Paradigm)
-    (pre : Path) (gH : List Nat) (opts : List SOpt) (lv : LevelS) (h : VHeap) :
-    WNode → VHeap × Except RunErr (List Entry)
+/-- `runNodeWP` (Model/C16Resume.lean: `runNodeW` for the nodes that execute under `part`) on the
+    heap: a component reads the cells of its slice when it runs; a nested graph extracts – on the
+    heap as the nodes before it left it – from the Options of its list. -/
+def runNodeSW (F : Facts) (K : KeyFacts) (R : ResumeFacts) (V : SliceFacts) (grow : Nat → Nat → Nat)
+    (par : Paradigm) (pre : Path) (gH : List Nat) (opts : List SOpt) (lv : LevelS) (part : Part)
+    (h : VHeap) : WNode → VHeap × Except RunErr (List Entry)
   | .comp k _ w =>
+    if part.skips then (h, .ok []) else
     (h, .ok [{ path := pre ++ [k], isGraph := false,
                vals := if w.forwards K par then h.read (vmGet lv.vm k) else [],
                handlers := gH ++ nodeHandlers (opts.map SOpt.shell) k }])
   | .pass _ _ => (h, .ok [])
   | .graph k ch w =>
+    if part.skips then (h, .ok []) else
     let sub := if w.forwards K par then glFor lv.gl k else []
     match extractS F V grow ch.erase sub h with
     | (h1, .error e) => (h1, .error (pre ++ [k], e))
     | (h1, .ok lv') =>
-      let gH' := (gH ++ nodeHandlers (opts.map SOpt.shell) k) ++ graphHandlers (sub.map SOpt.shell)
-      match runNodesSW F K V grow par (pre ++ [k]) gH' sub lv' h1 ch with
+      let nH := if part.restored && !R.restoredTaskGetsNodeCallbacks then []
+                else nodeHandlers (opts.map SOpt.shell) k
+      let gH' := (gH ++ nH) ++ graphHandlers (sub.map SOpt.shell)
+      match runNodesSW F K R V grow par (pre ++ [k]) gH' sub lv' part h1 ch with
       | (h2, .error e) => (h2, .error e)
       | (h2, .ok es) => (h2, .ok ({ path := pre ++ [k], isGraph := true, vals := [], handlers := gH' } :: es))
-def runNodesSW (F : Facts) (K : KeyFacts) (V : SliceFacts) (grow : Nat → Nat → Nat) (par : Paradigm)
-    (pre : Path) (gH : List Nat) (opts : List SOpt) (lv : LevelS) (h : VHeap) :
-    WNodes → VHeap × Except RunErr (List Entry)
+def runNodesSW (F : Facts) (K : KeyFacts) (R : ResumeFacts) (V : SliceFacts) (grow : Nat → Nat → Nat)
+    (par : Paradigm) (pre : Path) (gH : List Nat) (opts : List SOpt) (lv : LevelS) (part : Part)
+    (h : VHeap) : WNodes → VHeap × Except RunErr (List Entry)
   | .nil => (h, .ok [])
   | .cons n ns =>
-    match runNodeSW F K V grow par pre gH opts lv h n with
+    match runNodeSW F K R V grow par pre gH opts lv (part.node n.key) h n with
     | (h1, .error e) => (h1, .error e)
     | (h1, .ok a) =>
-      match runNodesSW F K V grow par pre gH opts lv h1 ns with
+      match runNodesSW F K R V grow par pre gH opts lv (part.rest n.key) h1 ns with
       | (h2, .error e) => (h2, .error e)
       | (h2, .ok b) => (h2, .ok (a ++ b))
 end
 
-/-- One call of the outermost graph with the caller's Options, on the heap `h`. -/
-def runSW (F : Facts) (K : KeyFacts) (V : SliceFacts) (grow : Nat → Nat → Nat) (par : Paradigm)
-    (g : WNodes) (opts : List SOpt) (h : VHeap) : VHeap × Except RunErr (List Entry) :=
+/-- One call of the outermost graph with the caller's Options, on the heap `h`; the nodes of
+    `part` execute (`Part.full`: a call from START to END). -/
+def runSW (F : Facts) (K : KeyFacts) (R : ResumeFacts) (V : SliceFacts) (grow : Nat → Nat → Nat)
+    (par : Paradigm) (part : Part) (g : WNodes) (opts : List SOpt) (h : VHeap) :
+    VHeap × Except RunErr (List Entry) :=
   match extractS F V grow g.erase opts h with
   | (h1, .error e) => (h1, .error ([], e))
   | (h1, .ok lv) =>
     let gH := graphHandlers (opts.map SOpt.shell)
-    match runNodesSW F K V grow par [] gH opts lv h1 g with
+    match runNodesSW F K R V grow par [] gH opts lv part h1 g with
     | (h2, .error e) => (h2, .error e)
     | (h2, .ok es) => (h2, .ok ({ path := [], isGraph := true, vals := [], handlers := gH } :: es))
 
@@ -259,13 +267,14 @@ def pickS (store : List SOpt) (ixs : List Nat) : List SOpt := ixs.filterMap (fun
 def storeAfterS (F : Facts) (h : VHeap) (store : List SOpt) (c : Call) : List SOpt :=
   (store.zip (storeAfter F (store.map (SOpt.abs h)) c)).map (fun x => { x.1 with paths := x.2.paths })
 
-/-- A sequence of calls over the caller's store of Option values and the one heap. -/
-def runCallsSW (F : Facts) (K : KeyFacts) (V : SliceFacts) (grow : Nat → Nat → Nat) :
-    VHeap → List SOpt → List CallW → List (Except RunErr (List Entry)) × List SOpt × VHeap
-  | h, store, [] => ([], store, h)
-  | h, store, c :: cs =>
-    let r := runSW F K V grow c.par c.g (pickS store c.ixs) h
-    let rest := runCallsSW F K V grow r.1 (storeAfterS F r.1 store c.erase) cs
+/-- A sequence of calls – plain, interrupted, resuming (`CallP`) – over the caller's store of
+    Option values, the one heap and the checkpoint store (`saved`). -/
+def runCallsSW (F : Facts) (K : KeyFacts) (R : ResumeFacts) (V : SliceFacts) (grow : Nat → Nat → Nat) :
+    Option Path → VHeap → List SOpt → List CallP → List (Except RunErr (List Entry)) × List SOpt × VHeap
+  | _, h, store, [] => ([], store, h)
+  | saved, h, store, c :: cs =>
+    let r := runSW F K R V grow c.par (c.ask.part saved) c.g (pickS store c.ixs) h
+    let rest := runCallsSW F K R V grow (c.ask.savedAfter saved r.2) r.1 (storeAfterS F r.1 store c.erase) cs
     (r.2 :: rest.1, rest.2)
 
 /-! ### the caller's side: building the store of Option values -/
